@@ -1617,6 +1617,28 @@ def call_method(eng, recv, r, name, args, kwargs, node, frame):
         if name in ("add", "discard") and isinstance(recv, VRef) and r.arr is not None and r.arr.sort().domain() == Val:
             eng.heap[recv.addr] = VSet(arr=z3.Store(r.arr, to_val(eng, args[0]), z3.BoolVal(name == "add")))
             return NONE
+        if r.arr is not None and r.arr.sort().domain() == Val:
+            # a set of untracked values: the remaining methods are not modelled precisely
+            if name in ("issubset", "issuperset", "isdisjoint"):
+                o = eng.deref(args[0])
+                if isinstance(o, VSet) and o.arr is not None and o.arr.sort() == r.arr.sort():
+                    x = fresh_bound("x")
+                    xv = z3.Const(str(x), Val)
+                    if name == "issubset":
+                        return VBool(z3.ForAll([xv], z3.Implies(r.arr[xv], o.arr[xv])))
+                    if name == "issuperset":
+                        return VBool(z3.ForAll([xv], z3.Implies(o.arr[xv], r.arr[xv])))
+                    return VBool(z3.ForAll([xv], z3.Not(z3.And(o.arr[xv], r.arr[xv]))))
+                return VBool(fresh_bool("set_" + name))
+            if name in ("remove", "pop", "clear", "update", "difference_update", "intersection_update", "symmetric_difference_update") and isinstance(recv, VRef):
+                # mutators: membership afterwards unknown (remove / pop may raise KeyError)
+                eng.heap[recv.addr] = VSet(arr=z3.Array(fresh_name("setof"), Val, z3.BoolSort()))
+                return eng.opaque_call(f"set.{name}(untracked)", [], node, havoc_args=False)
+            if name in ("union", "intersection", "difference", "symmetric_difference", "copy"):
+                if name == "copy":
+                    return eng.alloc(VSet(arr=r.arr))
+                eng.opaque_call(f"set.{name}(untracked)", [], node, havoc_args=False)
+                return eng.alloc(VSet(arr=z3.Array(fresh_name("setof"), Val, z3.BoolSort())))
         raise OutOfSubset(node, f"method set.{name}")
     if isinstance(r, VDict):
         fn = DICT_METHODS.get(name)
